@@ -136,3 +136,12 @@ type sentinelErr struct {
 }
 
 func (s *sentinelErr) Error() string { return "injected failure at " + s.Site }
+
+// wrapErr: a constructor's own typed error that wraps a cause.
+type wrapErr struct {
+	Msg   string
+	Inner error
+}
+
+func (w *wrapErr) Error() string { return w.Msg + ": " + w.Inner.Error() }
+func (w *wrapErr) Unwrap() error { return w.Inner }
